@@ -218,96 +218,111 @@ def features(net):
     return f
 
 
-def check(case):
-    import pandapower as pp
+def solve_original(res, recipe, opt, sn):
+    """build + solve; returns the solved net or None (res.skipped / res.fail set)"""
+    net, _ = netgen.build(recipe)
+    try:
+        run_orig(net, opt, sn)
+    except Exception as e:
+        kind, what = pf_outcome(e)
+        if kind == "skip":
+            res.skipped = what
+        else:
+            res.fail(what, error=repr(e)[:300])
+        return None
+    if not net.converged:
+        res.skipped = "not-converged"
+        return None
+    return net
+
+
+def roundtrip(res, path, net, recipe, opt, sn):
+    """convert the solved original through `path`, solve the converted net, run the oracle; returns (#buses compared, mapping)"""
     from pandapower.converter.pypower import to_ppc, from_ppc
     from pandapower.converter.matpower import to_mpc, from_mpc
-    res = Result()
-    recipe, opt = case["recipe"], case["opt"]
-    sn = recipe.get("sn_mva", 1.0)
     f_hz = recipe.get("f_hz", 50.0)
     kw = dict(calculate_voltage_angles=True, trafo_model="pi", init=opt["init"], check_connectivity=opt["check_connectivity"],
               switch_rx_ratio=opt["switch_rx_ratio"])
-    res.label("init:" + opt["init"])
-    n_conv = 0
-    for path in ("ppc", "mpc"):
-        r = recipe
-        if path == "mpc" and opt["no_branch_g_mat"] and has_branch_g(recipe):
-            r = _strip_g(recipe)
-        elif path == "mpc" and n_conv == 0:
-            break    # same network as in the ppc path and it did not converge
-        net, maps = netgen.build(r)
-        try:
-            run_orig(net, opt, sn)
-        except Exception as e:
-            kind, what = pf_outcome(e)
-            if kind == "skip":
-                res.skipped = what
-                continue
-            res.fail(what, error=repr(e)[:300])
-            return res
-        if not net.converged:
-            res.skipped = "not-converged"
-            continue
-        n_conv += 1
-        feats = features(net)
-        if path == "mpc" and has_branch_g(r):
-            feats.add("branch-g")
-            res.label("mpc:branch-g")
-        tmp = None
-        try:
-            with silence():
-                if path == "ppc":
-                    ppc = to_ppc(net, **kw)
-                    n_ppci = ppc["bus"].shape[0]
-                    lookup = net._pd2ppc_lookups["bus"].copy()
-                    net2 = from_ppc(ppc, f_hz=f_hz)
-                else:
-                    tmp = tempfile.mkdtemp(prefix="c21_")
-                    fn = os.path.join(tmp, "case.mat")
-                    mpc = to_mpc(net, fn, **kw)
-                    n_ppci = mpc["mpc"]["bus"].shape[0]
-                    lookup = net._pd2ppc_lookups["bus"].copy()
-                    net2 = from_mpc(fn, f_hz=f_hz)
-        except Exception as e:
-            res.fail("%s/conversion-crash/%s" % (path, exc_sig(e)), error=repr(e)[:300])
-            continue
-        finally:
-            if tmp:
-                shutil.rmtree(tmp, ignore_errors=True)
-        try:
-            run_conv(net2, sn)
-        except Exception as e:
-            kind, what = pf_outcome(e)
-            if kind == "skip" and what == "not-converged":
-                res.fail("%s/converted-net-not-converged/%s" % (path, "+".join(sorted(feats)) or "plain"))
+    feats = features(net)
+    if path == "mpc" and has_branch_g(recipe):
+        feats.add("branch-g")
+    cls = "+".join(sorted(feats)) or "plain"
+    tmp = None
+    try:
+        with silence():
+            if path == "ppc":
+                ppc = to_ppc(net, **kw)
+                n_ppci = ppc["bus"].shape[0]
+                lookup = net._pd2ppc_lookups["bus"].copy()
+                net2 = from_ppc(ppc, f_hz=f_hz)
             else:
-                res.fail("%s/converted-net-pf/%s" % (path, what), error=repr(e)[:300])
-            continue
-        n_cmp, mapped = compare(res, path, net, lookup, n_ppci, net2, sn, feats)
-        if path == "ppc":
-            for f in feats:
-                res.label(f)
-            n_sw_open = int((~net.switch.closed).sum()) if len(net.switch) else 0
-            renumbered = any(b != j for b, j in mapped.items())
-            if n_sw_open:
-                res.label("open-switch")
-            if renumbered:
-                res.label("ppc-numbering!=labels")
-            if n_ppci != int(net.bus.in_service.sum()):
-                res.label("aux-or-fused-or-unsupplied-buses")
-            if net.res_bus.vm_pu.isna().any():
-                res.label("unsupplied-bus")
-            if len(net.switch) and ((net.switch.et == "b") & net.switch.closed & (net.switch.z_ohm > 0)).any():
-                res.label("impedance-switch")
-            if not (net.gen.in_service.all() and net.line.in_service.all() and net.trafo.in_service.all() and
-                    net.load.in_service.all() and net.sgen.in_service.all() and net.bus.in_service.all()):
-                res.label("out-of-service")
-            if len(oracles.UF([]).p) == 0 and len(ref_nodes(net)[1]) > 1:
-                res.label("multi-reference")
-            nt_ppc = n_cmp >= 2 and (bool(feats & {"off-nominal", "shift", "phase-tap"}) or n_sw_open > 0 or renumbered)
+                tmp = tempfile.mkdtemp(prefix="c21_")
+                fn = os.path.join(tmp, "case.mat")
+                mpc = to_mpc(net, fn, **kw)
+                n_ppci = mpc["mpc"]["bus"].shape[0]
+                lookup = net._pd2ppc_lookups["bus"].copy()
+                net2 = from_mpc(fn, f_hz=f_hz)
+    except Exception as e:
+        res.fail("%s/conversion-crash/%s" % (path, exc_sig(e)), error=repr(e)[:300], features=cls)
+        return 0, {}, feats, 0
+    finally:
+        if tmp:
+            shutil.rmtree(tmp, ignore_errors=True)
+    try:
+        run_conv(net2, sn)
+    except Exception as e:
+        kind, what = pf_outcome(e)
+        if kind == "skip" and what == "not-converged":
+            res.fail("%s/converted-net-not-converged/%s" % (path, cls))
         else:
-            res.nontrivial = nt_ppc and n_cmp >= 2
-    if n_conv:
+            res.fail("%s/converted-net-pf/%s" % (path, what), error=repr(e)[:300])
+        return 0, {}, feats, n_ppci
+    n_cmp, mapped = compare(res, path, net, lookup, n_ppci, net2, sn, feats)
+    return n_cmp, mapped, feats, n_ppci
+
+
+def check(case):
+    res = Result()
+    recipe, opt = case["recipe"], case["opt"]
+    sn = recipe.get("sn_mva", 1.0)
+    res.label("init:" + opt["init"])
+    net = solve_original(res, recipe, opt, sn)
+    nt = []
+    if net is not None:
+        n_cmp, mapped, feats, n_ppci = roundtrip(res, "ppc", net, recipe, opt, sn)
+        for f in feats:
+            res.label(f)
+        n_sw_open = int((~net.switch.closed).sum()) if len(net.switch) else 0
+        renumbered = any(b != j for b, j in mapped.items())
+        if n_sw_open:
+            res.label("open-switch")
+        if renumbered:
+            res.label("ppc-numbering!=labels")
+        if n_ppci != int(net.bus.in_service.sum()):
+            res.label("aux-or-fused-or-unsupplied-buses")
+        if net.res_bus.vm_pu.isna().any():
+            res.label("unsupplied-bus")
+        if len(net.switch) and ((net.switch.et == "b") & net.switch.closed & (net.switch.z_ohm > 0)).any():
+            res.label("impedance-switch")
+        if any(len(net[t]) and not net[t].in_service.all() for t in ("bus", "line", "trafo", "gen", "sgen", "load", "shunt")):
+            res.label("out-of-service")
+        if len(ref_nodes(net)[1]) > 1:
+            res.label("multi-reference")
+        nt.append(n_cmp >= 2 and (bool(feats & {"off-nominal", "shift", "phase-tap"}) or n_sw_open > 0 or renumbered))
+    # MATPOWER file path; the case format has no branch conductance column -> mostly on the variant without line g / iron losses
+    recipe_m = recipe
+    if has_branch_g(recipe):
+        if opt["no_branch_g_mat"]:
+            recipe_m = _strip_g(recipe)
+            res2 = Result()
+            net = solve_original(res2, recipe_m, opt, sn)
+            res.failures.extend(res2.failures)
+        else:
+            res.label("mpc:branch-g")
+    if net is not None:
+        n_cmp, mapped, feats, n_ppci = roundtrip(res, "mpc", net, recipe_m, opt, sn)
+        nt.append(n_cmp >= 2)
+    res.nontrivial = len(nt) == 2 and all(nt)
+    if nt:
         res.skipped = None
     return res
